@@ -8,5 +8,8 @@ Init == r \in Recipes /\ class \in Classes
 Next == UNCHANGED <<r, class>>
 KeepsStrings == Resolve(class, StrStyle(r, class)) = "str"
 NonStringsPlain == \A tag \in {"bool", "null", "int", "float"} : (PlainTag(class) = tag) => Keeps(tag, class) = {"plain"}
+\* as a key, a canonical decimal integer text may be written plain, and the quoted styles keep it too
+KeysAreNames == /\ "plain" \in KeyKeeps("intish", TRUE) /\ "double" \in KeyKeeps("intish", TRUE)
+                /\ "plain" \notin KeyKeeps("intish", FALSE) /\ "plain" \notin KeyKeeps("boolish", TRUE)
 Witnessed == Len(Witness[class]) > 0 /\ (PlainTag(class) # "str" => "plain" \notin Keeps("str", class))
 =============================================================================
